@@ -333,6 +333,13 @@ func (P *Prog) panicSites(fn *ssa.Function) []panicSite {
 				out = append(out, panicSite{"mapkey", in, x.Key, "m[k] = v with an interface-typed key"})
 			}
 		case *ssa.BinOp:
+			// == on two interface values panics when both hold the same type and that type has a part that cannot be
+			// compared (a struct with an `any` field holding a slice): "comparing uncomparable type"
+			if (x.Op == token.EQL || x.Op == token.NEQ) && types.IsInterface(x.X.Type()) && types.IsInterface(x.Y.Type()) && !isNilConst(x.X) && !isNilConst(x.Y) {
+				if _, isErr := x.X.Type().Underlying().(*types.Interface); isErr && !types.Identical(x.X.Type(), types.Universe.Lookup("error").Type()) {
+					out = append(out, panicSite{"ifacecmp", in, x.X, "a == b on interface values"})
+				}
+			}
 			if x.Op == token.QUO || x.Op == token.REM {
 				if b, ok := x.X.Type().Underlying().(*types.Basic); ok && b.Info()&types.IsInteger != 0 {
 					out = append(out, panicSite{"divide", in, x.Y, "integer division"})
@@ -517,6 +524,31 @@ func checkC06(P *Prog, r *Result) {
 					} else {
 						r.ok("C06/panic-site", c, pos, "the key is configuration, not input")
 					}
+				}
+			case "ifacecmp":
+				bo := s.in.(*ssa.BinOp)
+				safe := func(v ssa.Value) bool {
+					switch y := cvi(v).(type) {
+					case *ssa.Const:
+						return true
+					case *ssa.MakeInterface:
+						return cmpNeverPanics(y.X.Type())
+					}
+					return false
+				}
+				fromReflect := func(v ssa.Value) bool {
+					c2, isCall := cvi(v).(*ssa.Call)
+					return isCall && callOf(c2).static != nil && isPkgFunc(callOf(c2).static, "reflect") && callOf(c2).static.Name() == "Interface"
+				}
+				tX, viaX := P.inputTainted(g, fn, bo.X)
+				tY, viaY := P.inputTainted(g, fn, bo.Y)
+				switch {
+				case safe(bo.X) || safe(bo.Y):
+					r.ok("C06/panic-site", c, pos, "one side is boxed from a type whose comparison cannot panic: a differing dynamic type compares unequal")
+				case tX || tY || fromReflect(bo.X) || fromReflect(bo.Y):
+					r.bad("C06/panic-site", c, pos, "== on two interface values one of which is (read out of) input data ["+viaX+viaY+"]: when both hold the same type with an uncomparable part (a struct with an `any` field holding a slice or map, as a JSON document produces) the runtime panics with 'comparing uncomparable type' - reflect.Type.Comparable() does not rule that out")
+				default:
+					r.ok("C06/panic-site", c, pos, "neither side is input data")
 				}
 			case "divide":
 				if _, isC := s.operand.(*ssa.Const); isC {
@@ -1675,4 +1707,23 @@ func (P *Prog) valueOfParamValidAtCallSites(rv ssa.Value) bool {
 		}
 	}
 	return n > 0 && okAll
+}
+
+// cmpNeverPanics: == on two values of static type t cannot panic (no interface-typed part whose dynamic type could be
+// uncomparable).
+func cmpNeverPanics(t types.Type) bool {
+	switch u := t.Underlying().(type) {
+	case *types.Basic, *types.Pointer, *types.Chan:
+		return true
+	case *types.Struct:
+		for i := 0; i < u.NumFields(); i++ {
+			if !cmpNeverPanics(u.Field(i).Type()) {
+				return false
+			}
+		}
+		return true
+	case *types.Array:
+		return cmpNeverPanics(u.Elem())
+	}
+	return false
 }
